@@ -1,4 +1,5 @@
 import PsModel.Lemmas.C14
+import PsModel.Props.C13
 /-!
 # C14 – property theorems: every run is an independent task whose exit always cleans up
 
@@ -466,12 +467,12 @@ theorem C14_cancel_created_task (s : St κ) (a t : Task) (wc pre : Bool)
   have hact : active (createStep current s t wc pre) a = true := by
     unfold active at ha ⊢
     unfold createStep
-    simp only [hp, ne_eq, not_true_eq_false, if_false, upd_other _ _ _ _ hne, current, if_true]
+    simp only [hp, ne_eq, not_true_eq_false, if_false, upd_other _ _ _ _ hne, current_eq, if_true]
     exact ha
   simp only [step, cancelStep, hact, Bool.not_true, Bool.false_eq_true, if_false, Option.getD_some]
   have hours : (createStep current s t wc pre).u.ours t = true := by
     unfold createStep
-    simp [hp, current]
+    simp [hp, current_eq]
   simp only [hours, Bool.not_true, Bool.false_eq_true, if_false, Option.isNone_some]
   constructor
   · unfold createStep; simp [hp]
@@ -507,14 +508,55 @@ theorem C14_reaper_never_blocks (s : St κ) (h : Task) (q : List Task) (hq : s.u
     have hu : headUnstarted s = false := by
       unfold headUnstarted; rw [hq]
       simp only [beq_eq_false_iff_ne, ne_eq]; exact hs
-    simp only [step, reapStep, hu, Bool.false_eq_true, if_false, C13.reapStepCfg, current, Bool.not_true,
+    simp only [step, reapStep, hu, Bool.false_eq_true, if_false, C13.reapStepCfg, current_eq, Bool.not_true,
       Bool.false_and, hq]
     constructor
     · split <;> rfl
     · intro hl; simp [hl]
   · intro hs
     have hu : headUnstarted s = true := by unfold headUnstarted; rw [hq]; simp [hs]
-    simp [step, reapStep, hu, current]
+    simp [step, reapStep, hu, current_eq]
+
+
+/-! ### the tie to the source: shape tables extracted from function.py / eval.py / decorators/service.py -/
+
+/-- **The extracted shapes are the modelled shapes**: `current` is DEFINED from the extracted configuration flags (a
+pre-fix shape that the extractor recognises turns the corresponding flag and with it the replayed model; these theorems
+then stop building); the remaining shape facts – loop under `if task in task2cb`, each callback awaited with its own
+`(ast_ctx, args, kwargs)`, first segment adds to `our_tasks` and makes the `task2cb` entry, result = the body's value,
+`CancelledError` re-raised, other exceptions logged, `unstarted_tasks` tracked iff the reaper waits for it, entry kept
+when present, add = dict store / remove = pop, `task.cancel` = default to self + `our_tasks` check + reaper + park,
+release in a `finally` without await, one FIFO reaper queue – are all as modelled. -/
+theorem C14_shape_tie : current = ⟨true, true, true, true, true, true, true⟩ ∧ shapeFacts.all id = true ∧
+    C13.Shape.extracted = C13.Shape.proved :=
+  ⟨rfl, by decide, C13.C13_shape_tie.1⟩
+
+/-- the release block assembled from the extracted order table is `finish` -/
+theorem C14_shape_finish (s : St κ) (t : Task) (r : Res) : finishSh C13.Shape.proved s t r = finish s t r := by
+  unfold finishSh finish
+  rw [C13.C13_shape_release]
+  simp [C13.Shape.proved]
+
+/-- **The model the driver replays observed runs with is the model of the theorems.** -/
+theorem C14_shape_step (s : St κ) (op : Op κ) : stepSh C13.Shape.extracted current s op = step current s op := by
+  rw [C14_shape_tie.2.2]
+  have hb : ∀ (s : St κ) (t : Task) (r : Res), bailSh C13.Shape.proved current s t r = bail current s t r := by
+    intro s t r; unfold bailSh bail; rw [C14_shape_finish]
+  cases op with
+  | unique t k km =>
+    simp only [stepSh, step, uniqueStepSh, uniqueStep]
+    rw [C13.C13_shape_unique]
+  | cbBegin t => simp only [stepSh, step, cbBeginStepSh, cbBeginStep, hb]
+  | cbEnd t r => simp only [stepSh, step, cbEndStepSh, cbEndStep, hb]
+  | cleanup t => simp only [stepSh, step, cleanupStepSh, cleanupStep, hb, C14_shape_finish]
+  | create t wc pre => rfl
+  | start t => rfl
+  | storeCtx t => rfl
+  | addCb a t c args => rfl
+  | removeCb a t c => rfl
+  | cancel a tg => rfl
+  | reap => rfl
+  | endBody t oc => rfl
 
 /-! non-vacuity -/
 example : let s := run current [.create 0 true true, .start 0, .storeCtx 0, .unique 0 7 false, .addCb 0 0 1 10,
